@@ -1115,7 +1115,8 @@ impl SimdLz77Compressor {
         let mut reader = BitReader::new(compressed);
         let mut matches = Vec::new();
 
-        while reader.has_bits(3) { // Need at least 3 bits for compression type
+        // The shortest encoded match takes 8 bits; up to 7 trailing bits are byte padding
+        while reader.has_bits(8) {
             let (pa_zip_match, _) = decode_match(&mut reader)?;
             matches.push(pa_zip_match);
         }
